@@ -499,6 +499,11 @@ func (p *Proof) frameGoal(k string, fin *Term) *Term {
 	if !ok || fin == init {
 		return True()
 	}
+	if strings.HasPrefix(k, "atomicword:") {
+		// model cells for atomic words behind opaque pointers: callers havoc them after every call
+		// that modifies anything, so they are outside the frame
+		return True()
+	}
 	if !strings.HasPrefix(k, "G:") && p.framedSyntactically(fin, init, map[int]bool{}) {
 		return True()
 	}
